@@ -42,6 +42,13 @@ CTXS = [
     ('fp.IEEEContext(3, 6, fp.RM.{rm})', 'float'),
     ('fp.IEEEContext(5, 12, fp.RM.{rm})', 'float'),
     ('fp.IEEEContext(6, 20, fp.RM.{rm})', 'float'),
+    # standard total width, non-standard exponent size: must NOT be spelled binaryNN
+    ('fp.IEEEContext(8, 16, fp.RM.{rm})', 'float'),      # bfloat16
+    ('fp.IEEEContext(4, 16, fp.RM.{rm})', 'float'),
+    ('fp.IEEEContext(11, 32, fp.RM.{rm})', 'float'),
+    ('fp.IEEEContext(5, 32, fp.RM.{rm})', 'float'),
+    ('fp.IEEEContext(8, 64, fp.RM.{rm})', 'float'),
+    ('fp.IEEEContext(11, 128, fp.RM.{rm})', 'float'),
     ('fp.INTEGER', 'integer'),
     ('fp.MPFixedContext(-1, fp.RM.{rm}, enable_neg_zero=False)', 'integer'),   # = fp.INTEGER with another rounding mode
     ('fp.FixedContext(True, -2, 8, fp.RM.{rm}, fp.OV.SATURATE)', 'fixed'),
